@@ -247,8 +247,7 @@ Section TwoFragments.
       bonded C ax lx = true /\ bonded C ay ly = true /\ bonded C ax ay = true /\ is_two (result_order C ax ay) = true /\
       (v = ez_tuple (map_get m (phi C lx)) (map_get m (phi C ax)) (map_get m (phi C ay)) (map_get m (phi C ly)) c \/
        v = ez_tuple (map_get m (phi C ly)) (map_get m (phi C ay)) (map_get m (phi C ax)) (map_get m (phi C lx)) c) /\
-      (owner C lx = owner C ax -> owner C ly = owner C ay ->
-         c = class_val (if wb C ly ay then negb (geom C lx ax ay ly tx ty) else geom C lx ax ay ly tx ty)).
+      c = class_val (if wb C ly ay then negb (geom C lx ax ay ly tx ty) else geom C lx ax ay ly tx ty).
   Proof.
     intros H tok. pose proof (string_step o H) as St.
     destruct (returned_class_geom C W fd two_templates_ok two_wf_dict (next_meta mol) HB Hat Hnum tok two_tok mol o eq_refl St)
